@@ -40,7 +40,9 @@ def run(tier):
                 ev = evs[rej["event"] - 1]
                 prev = [x["v"] for x in evs[:rej["event"] - 1] if x["e"] == ev["e"] and x["ev"] == "draw"]
                 if ev["ev"] == "draw":
-                    why = "returns an all-zero value" if all(b == 0 for b in ev["v"]) else ("repeats a value" if ev["v"] in prev else why)
+                    v = ev["v"]
+                    dependent = "Kdf::gen" in ev["e"] and len(v) >= 16 and any(v[i:i + 8] == v[-8:] for i in range(len(v) - 15))
+                    why = "returns an all-zero value" if all(b == 0 for b in v) else ("repeats a value" if v in prev else ("the two values returned by one call are not independent (the context is a copy of part of the key)" if dependent else why))
                 else:
                     const = [i for i in range(len(prev[0]))] if prev else []
                     const = [i for i in const if all(p[i] == prev[0][i] for p in prev)]
